@@ -35,6 +35,12 @@
 //	apply, safety uses the smallest and liveness the largest, so the oracle is never stricter than any
 //	reading of "the timeout for its protocol and state".
 //
+// Known finding (known_findings.json, key live-nat-forward-removed:queued-alone-on-equal-timestamps): the
+// scanner queues a NAT forward entry alone when its last_seen equals the reverse entry's; the cleaner
+// then removes it even if a packet refreshed only the reverse leg after the judgement.  That exact shape
+// (and nothing else) is reported under that key, and the case continues after it so that it cannot mask
+// other violations.  Equal-timestamp pairs are generated on purpose.
+//
 // Deliberately not checked
 //   - removal of a NAT forward entry that has no reverse entry at that moment (the code removes it at
 //     once as useless; the statement does not cover it) -- counted, not judged;
@@ -127,7 +133,23 @@ type world struct {
 	inScan bool
 	// liveness bookkeeping: key -> tracking last_seen when found idle past max timeout at a scan start
 	doomed map[string]int64
+	// fatal: a violation other than the listed known finding was recorded; the case stops.  Occurrences
+	// of the known finding are recorded but the case goes on, so that they cannot hide anything else.
+	fatal bool
 }
+
+// violation records a violation that ends the case.
+func (w *world) violation(key string, detail any, format string, args ...any) {
+	w.fatal = true
+	w.c.Violationf(key, detail, format, args...)
+}
+
+// knownShapeKey is the key of the one accepted finding (known_findings.json).  It is emitted ONLY for:
+// a NAT forward entry, its reverse entry present, queued ALONE (dummy reverse key) with
+// last_seen == rev_last_seen in the queue value (i.e. the two legs carried the same timestamp when
+// judged), whose own last_seen is still that value, removed although a packet since the judgement
+// refreshed only the reverse leg.
+const knownShapeKey = "live-nat-forward-removed:queued-alone-on-equal-timestamps"
 
 func (w *world) ks() int {
 	if w.ipver == 6 {
@@ -354,7 +376,7 @@ func (h *hCleaner) Run(opts ...conntrack.RunOpt) (*conntrack.CleanupContext, err
 		res, err := ch.run(w.ks(), vs, qvs, before, queue, uint64(w.mt.KTimeNanos()))
 		if err != nil {
 			c.Count("sanitizer_or_crash_reports", 1)
-			c.Violationf("native-cleaner-sanitizer-or-crash", w.detail(map[string]any{"report": err.Error()}),
+			w.violation("native-cleaner-sanitizer-or-crash", w.detail(map[string]any{"report": err.Error()}),
 				"the natively built conntrack_cleanup program died (sanitizer report or crash): %.300s", err.Error())
 			return &conntrack.CleanupContext{}, nil
 		}
@@ -362,7 +384,7 @@ func (h *hCleaner) Run(opts ...conntrack.RunOpt) (*conntrack.CleanupContext, err
 		w.ccq.Contents = res.ccq
 		cleaned = res.numCleaned
 		if res.rc != 0 {
-			c.Violationf("native-cleaner-nonzero-return", w.detail(nil), "conntrack_cleanup returned %d", res.rc)
+			w.violation("native-cleaner-nonzero-return", w.detail(nil), "conntrack_cleanup returned %d", res.rc)
 		}
 	} else {
 		if _, err := mock.NewMockBPFCleaner(w.ct, w.ccq).Run(); err != nil {
@@ -374,7 +396,7 @@ func (h *hCleaner) Run(opts ...conntrack.RunOpt) (*conntrack.CleanupContext, err
 	for _, k := range sortedKeys(before) {
 		if _, still := after[k]; still {
 			if after[k] != before[k] {
-				c.Violationf("cleaner-modified-entry", w.detail(map[string]any{"entry": w.key([]byte(k)).String()}),
+				w.violation("cleaner-modified-entry", w.detail(map[string]any{"entry": w.key([]byte(k)).String()}),
 					"the cleaner changed conntrack entry %s", w.key([]byte(k)))
 			}
 			continue
@@ -384,7 +406,7 @@ func (h *hCleaner) Run(opts ...conntrack.RunOpt) (*conntrack.CleanupContext, err
 	}
 	for k := range after {
 		if _, was := before[k]; !was {
-			c.Violationf("cleaner-added-entry", w.detail(map[string]any{"entry": w.key([]byte(k)).String()}), "the cleaner added conntrack entry %s", w.key([]byte(k)))
+			w.violation("cleaner-added-entry", w.detail(map[string]any{"entry": w.key([]byte(k)).String()}), "the cleaner added conntrack entry %s", w.key([]byte(k)))
 		}
 	}
 	if w.native && cleaned != ndel {
@@ -434,14 +456,54 @@ func (w *world) judgeRemoval(k string, before, queue map[string]string) {
 		"tracking_last_seen": tv.LastSeen(), "age_at_judgement": age.String(), "applicable_timeouts": fmt.Sprint(a),
 		"refreshed_after_judgement": refreshed, "queue_entry": fmt.Sprintf("%x", queue[k]),
 	})
+	if refreshed && kind == "nat-forward" && w.isKnownShape(k, v, tv, queue) {
+		c.Count("known_shape_observed", 1)
+		c.Violationf(knownShapeKey, det,
+			"NAT forward entry %s (queued alone because its last_seen equalled the reverse entry's) was removed although a packet refreshed the reverse entry %s after the judgement (last_seen=%d >= scan time %d)",
+			key, w.key([]byte(tk)), tv.LastSeen(), w.tScan)
+		return
+	}
 	if refreshed {
-		c.Violationf("live-entry-removed-after-traffic:"+kind, det,
+		w.violation("live-entry-removed-after-traffic:"+kind, det,
 			"%s entry %s was removed although its connection carried traffic after it was judged (tracking entry %s last_seen=%d >= scan time %d)",
 			kind, key, w.key([]byte(tk)), tv.LastSeen(), w.tScan)
 	} else {
-		c.Violationf("entry-removed-before-timeout:"+kind, det,
+		w.violation("entry-removed-before-timeout:"+kind, det,
 			"%s entry %s was removed after being idle for only %s; the applicable timeouts are %v", kind, key, age, a)
 	}
+}
+
+// isKnownShape: see knownShapeKey.  fv is the removed forward entry (as it was just before the
+// cleaner ran), rv its reverse entry at that moment.
+func (w *world) isKnownShape(k string, fv, rv conntrack.ValueInterface, queue map[string]string) bool {
+	q, ok := queue[k]
+	if !ok {
+		return false // the forward key itself was not queued (e.g. removed through a pair entry)
+	}
+	cv := conntrack.CleanupValueFromBytes
+	if w.ipver == 6 {
+		cv = conntrack.CleanupValueV6FromBytes
+	}
+	qv := cv([]byte(q))
+	if qv == nil {
+		return false
+	}
+	for _, b := range qv.OtherNATKey().AsBytes() {
+		if b != 0 {
+			return false // queued with a real reverse key
+		}
+	}
+	ts, rts := qv.Timestamp(), qv.RevTimestamp()
+	if ts != rts {
+		return false // the legs did not carry equal timestamps at judgement
+	}
+	if uint64(fv.LastSeen()) != ts {
+		return false // the forward entry's own last_seen changed since the judgement
+	}
+	if rv.LastSeen() < w.tScan {
+		return false // the reverse leg was not refreshed after the judgement
+	}
+	return true
 }
 
 // ---------------------------------------------------------------------------------------------
@@ -638,7 +700,7 @@ func run(c *harness.Case) {
 
 	scans := 3
 	var sig []any
-	for w.scan = 1; w.scan <= scans && !c.Failed(); w.scan++ {
+	for w.scan = 1; w.scan <= scans && !w.fatal; w.scan++ {
 		w.tScan = w.mt.KTimeNanos()
 		start := copyMap(w.ct.Contents)
 		// liveness bookkeeping: which entries are idle past every applicable timeout right now
@@ -661,7 +723,7 @@ func run(c *harness.Case) {
 		sc.Scan()
 		w.inScan = false
 		c.Count("scans", 1)
-		if c.Failed() {
+		if w.fatal {
 			return
 		}
 		end := w.ct.Contents
@@ -690,7 +752,7 @@ func run(c *harness.Case) {
 			switch {
 			case ts == -1 && !ok:
 				// still an orphan forward entry after two scans
-				c.Violationf("orphan-forward-survives-two-scans", w.detail(map[string]any{"entry": w.key([]byte(k)).String()}),
+				w.violation("orphan-forward-survives-two-scans", w.detail(map[string]any{"entry": w.key([]byte(k)).String()}),
 					"NAT forward entry %s without a reverse entry survived two scans", w.key([]byte(k)))
 				return
 			case ts == -1 || !ok:
@@ -700,7 +762,7 @@ func run(c *harness.Case) {
 				continue
 			}
 			age := time.Duration(w.tScan - tv.LastSeen())
-			c.Violationf("expired-entry-survives-two-scans", w.detail(map[string]any{
+			w.violation("expired-entry-survives-two-scans", w.detail(map[string]any{
 				"entry": w.key([]byte(k)).String(), "value": w.val([]byte(end[k])).String(),
 				"tracking_entry": w.key([]byte(tk)).String(), "tracking_value": tv.String(), "idle_for": age.String(),
 				"applicable_timeouts": fmt.Sprint(w.applicable(w.key([]byte(k)).Proto(), tv))}),
